@@ -1,5 +1,6 @@
 import RQ.Lemmas.Refine
 import RQ.Lemmas.DiskTree
+import RQ.Lemmas.SpecAgree
 /-!
 # C05 — push is all-or-nothing per patch: tree = first k patches, k = names recorded
 
@@ -16,6 +17,15 @@ The flush of the memory to disk (`saveAll`, `cleanAll`, reject files, backups) i
 `applyPatches` the file on disk under every name that is neither a reject file nor below `.pc` is the file
 `applyRange` has under that name after the first `k` patches.  The join needs that no name in the cache has a
 `.` component — true because every name went through `FilePatch::strip` (`cur_not_mem_stripPath`).
+
+The last hop is `C05_oracle_agrees` (`RQ/Lemmas/SpecAgree.lean`): the executable specification `Spec.pushSpec` — the
+oracle the correspondence check evaluates on the implementation's output — applies the patches with
+`Spec.applyRangeTree` on the tree itself, and that tree holds under every name the file `applyRange` has under it
+(same `k`, same reject files), provided the names of the range are prefix-free (`Agree.PrefixFree`) and no overlay
+reached holds an unterminated line in the middle of a file (`Agree.TreeTerminated`, known finding
+`unterminated-line-mid-file`); both provisos are needed (`Agree.Needed`).  `C05_disk_is_oracle` chains the three:
+the disk the driver model leaves is, file by file, the oracle's tree before reject files, backups and
+`.pc/applied-patches` are added.
 -/
 namespace RQ.Abs
 open RQ RQ.Push
@@ -77,8 +87,93 @@ theorem C05_tree_on_disk (w w' : World) (cfg : Cfg) (range : List Series.Entry) 
         Abs.look t w.fs name = .ok a → Flush.fileAt w'.fs key = viewOf a :=
   Disk.C05_tree_on_disk' w w' cfg range k hf hdry h
 
+/-- **C05 (oracle)**: the executable specification and the abstract specification describe the same files.  For a
+real (non-dry) run over prefix-free names, where every overlay reached holds only `Terminated` files: if `applyRange`
+ends with the overlay `t`, `k` applied patches and reject files `rejs`, then `Spec.applyRangeTree` — what `pushSpec`
+runs before it adds reject files, backups and `.pc/applied-patches` — ends with the same `k`, `failed` exactly when
+not all patches applied, the same reject files (oldest first instead of newest first), and a tree that holds under
+every stripped name exactly the file the overlay has under that name; and if `applyRange` refuses, so does
+`applyRangeTree` (and `pushSpec` exits with 1, tree untouched).  (Non-vacuity: `RQ.Agree.Example`; necessity of the
+two provisos: `RQ.Agree.Needed`.) -/
+theorem C05_oracle_agrees (fs : FS) (cfg : Cfg) (range : List Series.Entry) (hdry : cfg.dryRun = false)
+    (hpf : Agree.PrefixFree fs cfg range)
+    (hterm : ∀ t' ∈ Agree.reached fs cfg range [], Agree.TreeTerminated t') :
+    match Abs.applyRange fs cfg range 0 [] with
+    | .ok (t, k, rejs) =>
+        ∃ p, Spec.applyRangeTree cfg fs range { fs, k := 0, rejs := [], failed := false, backups := [] } = .ok p ∧
+          p.k = k ∧ p.failed = decide (k ≠ range.length) ∧ p.rejs = rejs.reverse ∧
+          ∀ name key a, Comp.cur ∉ components name → safeKey name = some key →
+            Abs.look t fs name = .ok a → Flush.fileAt p.fs key = viewOf a
+    | .error _ =>
+        Spec.applyRangeTree cfg fs range { fs, k := 0, rejs := [], failed := false, backups := [] } = .error () :=
+  Agree.spec_agree fs cfg range hdry hpf hterm
+
+/-- **C05 (driver model = oracle)**: whenever the model of the sequential driver finishes without an I/O error (and
+the two provisos of `C05_oracle_agrees` hold), the oracle's patch-by-patch run on the tree itself succeeds with the
+same number `k` of applied patches, and the file the driver leaves on disk under every readable (non-reject,
+non-`.pc`) name is the file in the oracle's tree. -/
+theorem C05_disk_is_oracle (w w' : World) (cfg : Cfg) (range : List Series.Entry) (k : Nat)
+    (hf : w.faultAt = none) (hdry : cfg.dryRun = false)
+    (hpf : Agree.PrefixFree w.fs cfg range)
+    (hterm : ∀ t' ∈ Agree.reached w.fs cfg range [], Agree.TreeTerminated t')
+    (h : applyPatches w cfg range = .ok (w', k)) :
+    ∃ p t rejs, Abs.applyRange w.fs cfg range 0 [] = .ok (t, k, rejs) ∧
+      Spec.applyRangeTree cfg w.fs range { fs := w.fs, k := 0, rejs := [], failed := false, backups := [] } = .ok p ∧
+      p.k = k ∧ p.failed = decide (k ≠ range.length) ∧ p.rejs = rejs.reverse ∧
+      ∀ name key a, Comp.cur ∉ components name → safeKey name = some key →
+        ¬ Flush.isRejKey rejs key → ¬ Flush.isPcKey key → Abs.look t w.fs name = .ok a →
+        Flush.fileAt w'.fs key = Flush.fileAt p.fs key := by
+  obtain ⟨t, rejs, hspec, hdisk⟩ := C05_tree_on_disk w w' cfg range k hf hdry h
+  have ho := C05_oracle_agrees w.fs cfg range hdry hpf hterm
+  rw [hspec] at ho
+  obtain ⟨p, h1, h2, h3, h4, h5⟩ := ho
+  refine ⟨p, t, rejs, hspec, h1, h2, h3, h4, ?_⟩
+  intro name key a hc hk hnr hnp hl
+  rw [hdisk name key a hc hk hnr hnp hl, h5 name key a hc hk hl]
+
+/-- **C05 (`pushSpec`)**: when `plan` decides to apply `range`, after `pushSpec` every stripped name whose path is
+neither a reject file nor below `.pc` holds exactly the file the abstract specification has under it after the first
+`k` patches, and (unless the last phase hit an output failure) the exit status is 0 exactly when all patches applied;
+if the abstract specification refuses, `pushSpec` exits with 1 and leaves the tree alone. -/
+theorem C05_pushSpec_agrees (cfg : Cfg) (fs : FS) (range : List Series.Entry) (hplan : plan cfg fs = .apply range)
+    (hdry : cfg.dryRun = false) (hpf : Agree.PrefixFree fs cfg range)
+    (hterm : ∀ t' ∈ Agree.reached fs cfg range [], Agree.TreeTerminated t') :
+    match Abs.applyRange fs cfg range 0 [] with
+    | .ok (t, k, rejs) =>
+        ((Spec.pushSpec cfg fs).ioError = false →
+          (Spec.pushSpec cfg fs).exit = if k = range.length then 0 else 1) ∧
+        ∀ name key a, Comp.cur ∉ components name → safeKey name = some key →
+          ¬ Flush.isRejKey rejs key → ¬ Flush.isPcKey key →
+          Abs.look t fs name = .ok a → Flush.fileAt (Spec.pushSpec cfg fs).fs key = viewOf a
+    | .error _ => (Spec.pushSpec cfg fs).exit = 1 ∧ (Spec.pushSpec cfg fs).fs = fs :=
+  Agree.pushSpec_agree cfg fs range hplan hdry hpf hterm
+
+/-- **C05 (driver model = `pushSpec`, file by file)**: the whole chain driver model → abstract tree → disk → oracle.
+Whenever the model of the sequential driver finishes the range `plan` chose without an I/O error (and the two
+provisos of `C05_oracle_agrees` hold), the file it leaves on disk under every readable (non-reject, non-`.pc`) name
+is the file `pushSpec` leaves there. -/
+theorem C05_disk_is_pushSpec (w w' : World) (cfg : Cfg) (range : List Series.Entry) (k : Nat)
+    (hplan : plan cfg w.fs = .apply range) (hf : w.faultAt = none) (hdry : cfg.dryRun = false)
+    (hpf : Agree.PrefixFree w.fs cfg range)
+    (hterm : ∀ t' ∈ Agree.reached w.fs cfg range [], Agree.TreeTerminated t')
+    (h : applyPatches w cfg range = .ok (w', k)) :
+    ∃ t rejs, Abs.applyRange w.fs cfg range 0 [] = .ok (t, k, rejs) ∧
+      ∀ name key a, Comp.cur ∉ components name → safeKey name = some key →
+        ¬ Flush.isRejKey rejs key → ¬ Flush.isPcKey key → Abs.look t w.fs name = .ok a →
+        Flush.fileAt w'.fs key = Flush.fileAt (Spec.pushSpec cfg w.fs).fs key := by
+  obtain ⟨t, rejs, hspec, hdisk⟩ := C05_tree_on_disk w w' cfg range k hf hdry h
+  have ho := C05_pushSpec_agrees cfg w.fs range hplan hdry hpf hterm
+  rw [hspec] at ho
+  refine ⟨t, rejs, hspec, ?_⟩
+  intro name key a hc hk hnr hnp hl
+  rw [hdisk name key a hc hk hnr hnp hl, ho.2 name key a hc hk hnr hnp hl]
+
 #print axioms C05_apply_refines
 #print axioms C05_tree_on_disk
 #print axioms C05_exit_and_names
+#print axioms C05_oracle_agrees
+#print axioms C05_disk_is_oracle
+#print axioms C05_pushSpec_agrees
+#print axioms C05_disk_is_pushSpec
 
 end RQ.Abs
